@@ -50,6 +50,11 @@ fn gen_sheet(rng: &mut Rng, max_row: u32) -> MSheet {
                 sh.cells.insert((r, c0 + c + rng.range_u32(0, 1)), MCell::v(v));
             }
         }
+        // an empty-string cell (a value, not an absent cell, where the format keeps it) next to
+        // the other cells of the row
+        if sh.cells.keys().any(|p| p.0 == r) && rng.chance(1, 4) {
+            sh.cells.insert((r, c0 + 7), MCell::v(Val::Str(String::new())));
+        }
         r += match rng.below(4) {
             0 => 1,
             1 => 2,
